@@ -267,6 +267,9 @@ func (a *Analysis) ruleT3() {
 		var site ssa.Instruction
 		for _, c := range e.Calls {
 			if c.Callee == "lookup" {
+				if k, ok := c.Args[1].(StrV); !ok || k.Kind != skTok {
+					continue // not the word lookup (e.g. a table of valid sizes)
+				}
 				if mapAV != nil && mapAV.String() != c.Args[0].String() {
 					r.Unk("T3", "map-of/"+lc.Name, a.P.InstrPos(c.Instr), ctx.Name, "the validator looks words up in more than one map (%v and %v)", mapAV, c.Args[0])
 				}
@@ -495,58 +498,35 @@ func (a *Analysis) onlyUsedByDo(f *ssa.Function) bool {
 	return true
 }
 
-// builderShape checks: M = make(map…) ; for i, w := range L { M[w] = int64(i) } and nothing else that matters.
-func (a *Analysis) builderShape(f *ssa.Function, M *ssa.Global) (*ssa.Global, int64, string) {
-	var stores []*ssa.Store
+// fillShape checks that f contains exactly one map assignment `m[list[i]] = int64(i)` executed
+// unconditionally in a full `range` over `list`, where mapOK accepts the map operand.
+// It returns the SSA value of the list operand.
+func (a *Analysis) fillShape(f *ssa.Function, mapOK func(ssa.Value) bool) (ssa.Value, string) {
 	var updates []*ssa.MapUpdate
 	for _, b := range f.Blocks {
 		for _, in := range b.Instrs {
 			switch x := in.(type) {
-			case *ssa.Store:
-				if x.Addr == ssa.Value(M) {
-					stores = append(stores, x)
-				}
 			case *ssa.MapUpdate:
 				updates = append(updates, x)
-			case ssa.CallInstruction:
-				name := calleeName(x)
-				if name != "len" {
-					return nil, 0, fmt.Sprintf("builder %s calls %s: outside the recognised construction", fnKey(f), name)
-				}
 			case *ssa.Go, *ssa.Defer, *ssa.Panic, *ssa.Send, *ssa.Select:
-				return nil, 0, fmt.Sprintf("builder %s contains %T", fnKey(f), in)
+				return nil, fmt.Sprintf("%s contains %T", fnKey(f), in)
 			}
 		}
 	}
-	if len(stores) != 1 {
-		return nil, 0, fmt.Sprintf("builder %s assigns %s %d times (expected once, a fresh map)", fnKey(f), M.Name(), len(stores))
-	}
-	mk, ok := stores[0].Val.(*ssa.MakeMap)
-	if !ok {
-		return nil, 0, fmt.Sprintf("builder %s assigns %s something other than a fresh map", fnKey(f), M.Name())
-	}
 	if len(updates) != 1 {
-		return nil, 0, fmt.Sprintf("builder %s has %d map assignments (expected one, inside the range loop)", fnKey(f), len(updates))
+		return nil, fmt.Sprintf("%s has %d map assignments (expected one, inside the range loop)", fnKey(f), len(updates))
 	}
 	u := updates[0]
-	if !(u.Map == ssa.Value(mk) || loadedGlobal(u.Map) == M) {
-		return nil, 0, fmt.Sprintf("builder %s updates a map other than %s", fnKey(f), M.Name())
+	if !mapOK(u.Map) {
+		return nil, fmt.Sprintf("%s updates a map other than the one it builds", fnKey(f))
 	}
-	if loadedGlobal(u.Map) == M && !instrDominates(stores[0], u) {
-		return nil, 0, "the map is filled before it is made"
-	}
-	// key = *(&L[idx]) ; value = int64(idx)
 	kl, ok := u.Key.(*ssa.UnOp)
 	if !ok || kl.Op != token.MUL {
-		return nil, 0, "map key is not an element of the list"
+		return nil, "map key is not an element of the list"
 	}
 	ia, ok := kl.X.(*ssa.IndexAddr)
 	if !ok {
-		return nil, 0, "map key is not an element of the list"
-	}
-	L := loadedGlobal(ia.X)
-	if L == nil || a.G.Lists[L] == nil {
-		return nil, 0, "map keys are not taken from a package-level word list"
+		return nil, "map key is not an element of the list"
 	}
 	val := u.Value
 	for {
@@ -561,56 +541,175 @@ func (a *Analysis) builderShape(f *ssa.Function, M *ssa.Global) (*ssa.Global, in
 		break
 	}
 	if val != ia.Index {
-		return nil, 0, "the value stored for a word is not its own index in the list"
+		return nil, "the value stored for a word is not its own index in the list"
 	}
-	// idx is the range index over the whole list: φ(-1, idx) + 1 with bound len(L), in a loop whose body runs the update unconditionally
 	loops := naturalLoops(f)
 	if len(loops) != 1 {
-		return nil, 0, fmt.Sprintf("builder has %d loops", len(loops))
+		return nil, fmt.Sprintf("%s has %d loops", fnKey(f), len(loops))
+	}
+	sameList := func(v ssa.Value) bool {
+		if v == ia.X {
+			return true
+		}
+		g1, g2 := loadedGlobal(v), loadedGlobal(ia.X)
+		return g1 != nil && g1 == g2
 	}
 	for h, body := range loops {
 		if !body[u.Block()] {
-			return nil, 0, "the map assignment is outside the loop"
+			return nil, "the map assignment is outside the loop"
 		}
 		for _, p := range h.Preds {
 			if body[p] && !u.Block().Dominates(p) {
-				return nil, 0, "the map assignment is conditional inside the loop"
+				return nil, "the map assignment is conditional inside the loop"
 			}
 		}
 		ifi, ok := h.Instrs[len(h.Instrs)-1].(*ssa.If)
 		if !ok {
-			return nil, 0, "loop without header test"
+			return nil, "loop without header test"
 		}
 		cmp, ok := ifi.Cond.(*ssa.BinOp)
 		if !ok || cmp.Op != token.LSS || cmp.X != ia.Index {
-			return nil, 0, "loop test is not index < len(list)"
+			return nil, "loop test is not index < len(list)"
 		}
 		ln, ok := cmp.Y.(*ssa.Call)
-		if !ok || calleeName(ln) != "len" || loadedGlobal(ln.Call.Args[0]) != L {
-			return nil, 0, "loop bound is not the length of the same list"
+		if !ok || calleeName(ln) != "len" || !sameList(ln.Call.Args[0]) {
+			return nil, "loop bound is not the length of the same list"
 		}
 		add, ok := ia.Index.(*ssa.BinOp)
 		if !ok || add.Op != token.ADD {
-			return nil, 0, "index is not a range index"
+			return nil, "index is not a range index"
 		}
 		phi, ok := add.X.(*ssa.Phi)
 		one, okc := intConst(add.Y)
 		if !ok || !okc || one != 1 || phi.Block() != h {
-			return nil, 0, "index is not a range index"
+			return nil, "index is not a range index"
 		}
 		startOK := false
 		for i, p := range h.Preds {
 			if body[p] {
 				if phi.Edges[i] != ssa.Value(add) {
-					return nil, 0, "index does not advance by one"
+					return nil, "index does not advance by one"
 				}
 			} else if c, ok := intConst(phi.Edges[i]); ok && c == -1 {
 				startOK = true
 			}
 		}
 		if !startOK {
-			return nil, 0, "range does not start at the first word"
+			return nil, "range does not start at the first word"
 		}
+	}
+	return ia.X, ""
+}
+
+// helperShape: h(list []string) map[string]int64 { m := make(...); for i, w := range list { m[w] = int64(i) }; return m }
+func (a *Analysis) helperShape(h *ssa.Function) string {
+	if len(h.Params) != 1 || len(h.Blocks) == 0 {
+		return fmt.Sprintf("%s is not a one-argument function", fnKey(h))
+	}
+	var mk *ssa.MakeMap
+	for _, b := range h.Blocks {
+		for _, in := range b.Instrs {
+			switch x := in.(type) {
+			case *ssa.MakeMap:
+				if mk != nil {
+					return fmt.Sprintf("%s makes more than one map", fnKey(h))
+				}
+				mk = x
+			case *ssa.Store:
+				if _, isG := x.Addr.(*ssa.Global); isG {
+					return fmt.Sprintf("%s writes a package-level variable", fnKey(h))
+				}
+			case ssa.CallInstruction:
+				if n := calleeName(x); n != "len" {
+					return fmt.Sprintf("%s calls %s", fnKey(h), n)
+				}
+			}
+		}
+	}
+	if mk == nil {
+		return fmt.Sprintf("%s does not make a fresh map", fnKey(h))
+	}
+	listVal, msg := a.fillShape(h, func(v ssa.Value) bool { return v == ssa.Value(mk) })
+	if listVal == nil {
+		return msg
+	}
+	if listVal != ssa.Value(h.Params[0]) {
+		return fmt.Sprintf("%s does not range over its argument", fnKey(h))
+	}
+	for _, ret := range returnsOf(h) {
+		if len(ret.Results) != 1 || ret.Results[0] != ssa.Value(mk) {
+			return fmt.Sprintf("%s does not return the map it built", fnKey(h))
+		}
+	}
+	return ""
+}
+
+// builderShape checks: M = make(map…) ; for i, w := range L { M[w] = int64(i) } and nothing else that matters,
+// or M = helper(L) with helper of the shape above.
+func (a *Analysis) builderShape(f *ssa.Function, M *ssa.Global) (*ssa.Global, int64, string) {
+	var stores []*ssa.Store
+	for _, b := range f.Blocks {
+		for _, in := range b.Instrs {
+			if x, ok := in.(*ssa.Store); ok && x.Addr == ssa.Value(M) {
+				stores = append(stores, x)
+			}
+		}
+	}
+	if len(stores) != 1 {
+		return nil, 0, fmt.Sprintf("builder %s assigns %s %d times (expected once, a fresh map)", fnKey(f), M.Name(), len(stores))
+	}
+	var L *ssa.Global
+	switch v := stores[0].Val.(type) {
+	case *ssa.MakeMap:
+		for _, c := range callsIn(f) {
+			if n := calleeName(c); n != "len" {
+				return nil, 0, fmt.Sprintf("builder %s calls %s: outside the recognised construction", fnKey(f), n)
+			}
+		}
+		listVal, msg := a.fillShape(f, func(m ssa.Value) bool {
+			if m == ssa.Value(v) {
+				return true
+			}
+			if loadedGlobal(m) == M {
+				if in, ok := m.(ssa.Instruction); ok {
+					return instrDominates(stores[0], in)
+				}
+			}
+			return false
+		})
+		if listVal == nil {
+			return nil, 0, msg
+		}
+		L = loadedGlobal(listVal)
+	case *ssa.Call:
+		h := v.Call.StaticCallee()
+		if h == nil || h.Pkg == nil || !a.P.InModule(h.Pkg) || len(v.Call.Args) != 1 {
+			return nil, 0, fmt.Sprintf("builder %s assigns %s the result of %s: outside the recognised construction", fnKey(f), M.Name(), calleeName(v))
+		}
+		inInit := f.Synthetic != "" && f.Name() == "init"
+		if !inInit {
+			for _, c := range callsIn(f) {
+				if c != ssa.CallInstruction(v) && calleeName(c) != "len" {
+					return nil, 0, fmt.Sprintf("builder %s also calls %s", fnKey(f), calleeName(c))
+				}
+			}
+		}
+		if msg := a.helperShape(h); msg != "" {
+			return nil, 0, msg
+		}
+		for _, b := range f.Blocks {
+			for _, in := range b.Instrs {
+				if mu, ok := in.(*ssa.MapUpdate); ok && (!inInit || mu.Map == ssa.Value(v) || loadedGlobal(mu.Map) == M) {
+					return nil, 0, "the builder modifies the map after the helper built it"
+				}
+			}
+		}
+		L = loadedGlobal(v.Call.Args[0])
+	default:
+		return nil, 0, fmt.Sprintf("builder %s assigns %s something other than a fresh map", fnKey(f), M.Name())
+	}
+	if L == nil || a.G.Lists[L] == nil {
+		return nil, 0, "map keys are not taken from a package-level word list"
 	}
 	n := int64(len(a.G.Lists[L].Elems))
 	bits, ok := log2exact(n)
